@@ -320,6 +320,8 @@ def rand_input(sort, r, ctx=None):
     if isinstance(sort, (list, tuple)):
         if sort[0] == 'const':
             return {'const': repr(sort[1])}
+        if sort[0] == 'oneof':
+            return {'const': repr(r.choice(list(sort[1])))}
         if sort[0] == 'list':
             return [rand_input(sort[1], r) for _ in range(sort[2])]
         if sort[0] == 'fn':
@@ -546,7 +548,14 @@ def run_contract(spec, inputs_json, only=None):
     st = pyvc_rt._State()
     pyvc_rt.ST = st
     st.only = only
-    vals = {k: decode(v) for k, v in inputs_json.items() if not k.startswith('stub:')}
+    out = {'contract': spec.name, 'pre_ok': True, 'exception': None, 'clauses': [], 'rng_deviated': False}
+    try:
+        vals = {k: decode(v) for k, v in inputs_json.items() if not k.startswith('stub:')}
+    except Exception as e:
+        # the input cannot be built (a constructor of an input object rejects its arguments): not an input at all
+        out['pre_ok'] = False
+        out['undecodable'] = f'{type(e).__name__}: {e}'
+        return out
     ghost = spec.opts.get('ghost', [])
     args = [vals[p] for p in spec.args if p not in spec.kwonly and p not in ghost]
     kwargs = {p: vals[p] for p in spec.kwonly}
@@ -554,7 +563,6 @@ def run_contract(spec, inputs_json, only=None):
     if spec.opts.get('call') is not None:
         args = list(spec.opts['call'](**byname))
         kwargs = {}
-    out = {'contract': spec.name, 'pre_ok': True, 'exception': None, 'clauses': [], 'rng_deviated': False}
     if spec.kind == 'lemma':
         st.phase = 'post'
         lpatches = []
